@@ -39,7 +39,7 @@ let reason_text why x y =
   match why with
   | RError -> "the solver reported an error"
   | RNonemptyByMargin -> "x=" ^ string_of_vec x ^ " satisfies every row with slack 1e-6*|a|_1"
-  | RWitnessOutside -> "the witness " ^ string_of_vec x ^ " violates a row by more than 1e-8 (or has the wrong length)"
+  | RWitnessOutside -> "the witness " ^ string_of_vec x ^ " violates a row by more than the tolerance (1e-8; 1e-6 on a certified-thin system) or has the wrong length"
   | RNotMinimal -> "the exact minimum is attained at xs=" ^ string_of_vec x ^ " (dual multipliers " ^ string_of_vec y ^ "); the witness' objective differs by more than 1e-6"
   | REmptyOptimal -> "the set is empty: Farkas multipliers " ^ string_of_vec x
   | RUnboundedOptimal -> "the objective is unbounded below: feasible x0=" ^ string_of_vec x ^ " ray d=" ^ string_of_vec y
@@ -57,7 +57,9 @@ let referee_one ~id ~ctx (n : int) (p : rows) (c : vec) (s : st) (fail : string 
   | StNonfinite -> fail (ctx ^ "-witness-outside") (Printf.sprintf "non-finite witness; %s" (desc ()))
   | St st ->
     bump (ctx ^ "_" ^ (match st with Infeasible -> "infeasible" | Unbounded -> "unbounded" | Optimal _ -> "optimal" | SolverError -> "error"));
-    (match judge tau_margin tol_member delta_obj (nat_of_int n) p c st with
+    let tol = tol_for (nat_of_int n) p in
+    if not (qeqb tol tol_member) then bump "thin_system_verdicts";
+    (match judge tau_margin tol delta_obj (nat_of_int n) p c st with
      | JOk -> bump "verdicts_certified"
      | JUnknown -> result id "UNK" ctx (Printf.sprintf "a certificate of the search was rejected; verdict=%s %s" (string_of_status st) (desc ()))
      | JBad (why, x, y) ->
@@ -69,25 +71,26 @@ let referee_one ~id ~ctx (n : int) (p : rows) (c : vec) (s : st) (fail : string 
          else ctx ^ "-" ^ reason_tag why in
        fail tag (Printf.sprintf "verdict=%s but %s; %s" (string_of_status st) (reason_text why x y) (desc ())))
 
-(* the Chebyshev system as constructed: rows (a_i, nu_i | b_i) with nu_i >= 0, nu_i^2 = a_i.a_i up to rounding,
-   last row (0..0,-1 | 0), objective (0..0,-1) *)
-let cheb_system_ok (n : int) (p : rows) (sys : rows) (c : vec) : string option =
-  let m = List.length p in
-  if List.length sys <> m + 1 then Some "row count"
+(* reference norms: sqrt(a.a) computed in floating point (unverified oracle), converted exactly to a rational and
+   CHECKED: nu >= 0 and |nu^2 - a.a| <= 2^-50 * a.a  (the hypothesis of C10_chebyshev up to rounding) *)
+let float_of_qc (x : qc) : float =
+  let q = this x in
+  float_of_string (string_of_z q.qnum) /. float_of_string (string_of_pos q.qden)
+let qc_of_float_exact (f : float) : qc =
+  if f = 0.0 then zero
   else begin
-    let ns = List.map (fun (a, _) -> match List.rev a with v :: _ -> v | [] -> zero) (List.filteri (fun i _ -> i < m) sys) in
-    let model = cheb_sys (nat_of_int n) p ns in
-    let same = List.length model = List.length sys &&
-               List.for_all2 (fun (a, b) (a', b') -> veqb a a' && qeqb b b') model sys in
-    if not same then Some "rows differ from (a_i, norm_i | b_i) + radius row"
-    else if not (veqb c (cheb_obj (nat_of_int n))) then Some "objective is not (0,..,0,-1)"
-    else begin
-      let bad = List.exists2 (fun (a, _) nu ->
-          let aa = dot a a in
-          not (qleb zero nu) || not (qleb (qabs (qcminus (qcmult nu nu) aa)) (qcmult two_m50 aa))) p ns in
-      if bad then Some "norm column is not sqrt(a.a) up to rounding" else None
-    end
+    let (m, e) = Float.frexp f in
+    let mi = int_of_float (Float.ldexp m 53) in
+    qc_of_float (z_of_int mi) (z_of_int (e - 53))
   end
+let norm_ok (a : vec) (nu : qc) : bool =
+  let aa = dot a a in
+  qleb zero nu && qleb (qabs (qcminus (qcmult nu nu) aa)) (qcmult two_m50 aa)
+let ref_norms (p : rows) : vec option =
+  let ns = List.map (fun (a, _) -> qc_of_float_exact (sqrt (float_of_qc (dot a a)))) p in
+  if List.for_all2 (fun (a, _) nu -> norm_ok a nu) p ns then Some ns else None
+let rows_eq (r1 : rows) (r2 : rows) : bool =
+  List.length r1 = List.length r2 && List.for_all2 (fun (a, b) (a', b') -> veqb a a' && qeqb b b') r1 r2
 
 let check (case : Sexp.t) : unit =
   match case with
@@ -126,17 +129,27 @@ let check (case : Sexp.t) : unit =
         (match s' with St Infeasible -> () | _ -> nonempty := true);
         referee_one ~id ~ctx:"lp" n p (vec_of c) s' fail
       | _ -> raise (Parse_error "lp")) lps;
-    (* chebyshev_center *)
+    (* chebyshev_center: deciding = the verdict of the implementation's program, judged against the REFERENCE
+       Chebyshev program of P (model cheb_sys with checked norms); mirror = the implementation's system is literally
+       (a_i, norm_i | b_i) + radius row with objective (0,..,0,-1) *)
     (match cheb with
      | List [Atom "cheb"; Atom "panic"] -> fail "cheb-panic" (Printf.sprintf "chebyshev_center panicked; P=%s" (string_of_rows p))
      | List [Atom "cheb"; sysa; c; s] ->
-       let sa = aff_of sysa in
-       let sys = rows_of_aff sa in
-       let cv = vec_of c in
-       (match (if int_of_nat sa.a_in <> n + 1 then Some "input dimension" else cheb_system_ok n p sys cv) with
-        | Some why -> fail "cheb-system" (Printf.sprintf "the constructed system is not the Chebyshev system of P (%s): sys=%s c=%s P=%s" why (string_of_rows sys) (string_of_vec cv) (string_of_rows p))
-        | None -> bump "cheb_system_ok");
-       referee_one ~id ~ctx:"cheb" (n + 1) sys cv (status_of s) fail
+       (match ref_norms p with
+        | None -> result id "UNK" "cheb" "reference norms rejected"
+        | Some ns ->
+          let sys_ref = cheb_sys (nat_of_int n) p ns in
+          let c_ref = cheb_obj (nat_of_int n) in
+          referee_one ~id ~ctx:"cheb" (n + 1) sys_ref c_ref (status_of s) fail;
+          let same = (try
+                        let sa = aff_of sysa in
+                        int_of_nat sa.a_in = n + 1 && rows_eq (rows_of_aff sa) sys_ref && veqb (vec_of c) c_ref
+                      with Nonfinite -> false) in
+          if same then bump "mirror_agree"
+          else begin
+            bump "mirror_mismatch";
+            result id "MIRROR" "cheb-system" (Printf.sprintf "the constructed program differs from (a_i, |a_i| | b_i) + radius row, objective (0,..,0,-1): sys=%s c=%s P=%s" (Sexp.to_string sysa) (Sexp.to_string c) (string_of_rows p))
+          end)
      | _ -> raise (Parse_error "cheb"));
     if n >= 2 && List.length p >= 3 && !nonempty then bump "nontrivial";
     if !ok then result id "OK" kind ""
